@@ -86,6 +86,12 @@ type scenarioB struct {
 	// notifications are still queued — they must still all arrive
 	NotifyDelay time.Duration
 	CloseTO     time.Duration
+	// WedgeData: right before the first Close the peer sends a data primary whose handler blocks until
+	// WedgeFor after the Close call — past the (short) close timeout and past the reopen: the receive
+	// goroutine the bounded Close had to abandon comes back to life inside the NEXT open cycle, where
+	// nothing it does may move State()
+	WedgeData bool
+	WedgeFor  time.Duration
 }
 
 type gen struct {
@@ -133,6 +139,7 @@ type harnessB struct {
 
 	closeCalled   bool
 	closeStarted  bool
+	wedged        bool
 	closeTimedOut bool // Close reported the close timeout: the handlers had not drained when it returned
 	inHandler     int
 	peerDials     int
@@ -241,6 +248,11 @@ func genScenarioB(t *core.Tape, faulty bool) scenarioB {
 		sc.CloseTO = []time.Duration{2 * time.Second, 200 * time.Millisecond}[t.Choose("scn", 2)]
 		sc.Reopen = false
 	}
+	if sc.Reopen && sc.NotifyDelay == 0 && t.Bias("scn", 1, 4) {
+		sc.WedgeData = true
+		sc.CloseTO = 200 * time.Millisecond
+		sc.WedgeFor = sc.CloseTO + sc.ReopenIn + time.Duration(100+t.Choose("scn", 40)*10)*time.Millisecond
+	}
 	for i := 0; i < 12; i++ {
 		l := t.Choose("scn", 4) * 5
 		if t.Bias("scn", 1, 8) {
@@ -300,6 +312,17 @@ func BuildE2E(faulty bool) core.BuildFunc {
 
 			return simnet.DialOutcome{Latency: time.Duration(l) * time.Millisecond}
 		}
+		if sc.WedgeData {
+			r.OnDeliver = func(m *hsms.DataMessage, ep hsms.SECS2Endpoint) {
+				if m.Stream() == 6 && m.Function() == 99 && !h.wedged {
+					h.wedged = true
+					w.Fault("data-handler-blocks-across-close-and-reopen")
+					core.Sleep(sc.WedgeFor)
+					w.Logf("wedged data handler returns")
+					w.Probe("abandoned_receive_goroutine_resumes_in_next_open_cycle")
+				}
+			}
+		}
 		r.P.OnOpen = h.onOpen
 		r.P.OnFrame = h.onFrame
 		r.P.OnEnd = func(c *refhsms.Conn) {}
@@ -338,7 +361,7 @@ func (h *harnessB) describe() map[string]any {
 	}
 
 	return map[string]any{"engine": "e2e", "active": sc.Active, "equip": sc.Equip, "T6": sc.T6.String(), "T7": sc.T7.String(), "backoff": sc.Backoff.String(),
-		"writeTimeout": sc.WriteTO.String(), "generations": plans, "senders": sc.Senders, "closeAt": sc.CloseAt.String(), "notifyDelay": sc.NotifyDelay.String(), "closeTimeout": sc.CloseTO.String(), "closeOnConnect": sc.CloseOnConnect, "closeOnOff": sc.CloseOnOff.String(), "reopen": sc.Reopen, "dial": sc.DialLat}
+		"writeTimeout": sc.WriteTO.String(), "generations": plans, "senders": sc.Senders, "closeAt": sc.CloseAt.String(), "notifyDelay": sc.NotifyDelay.String(), "closeTimeout": sc.CloseTO.String(), "wedgedDataHandlerFor": sc.WedgeFor.String(), "closeOnConnect": sc.CloseOnConnect, "closeOnOff": sc.CloseOnOff.String(), "reopen": sc.Reopen, "dial": sc.DialLat}
 }
 
 func (h *harnessB) peerDialLoop() {
@@ -578,6 +601,21 @@ func (h *harnessB) afterEstablished(g *gen) {
 	})
 }
 
+// watchT7: a NotSelected dwell that is still going on T7 after it began (the peer neither ended the
+// connection nor was Close called) must have been ended by the T7 expiry — "each change takes effect
+// exactly when its cause does" includes the cause that is a timer.
+func (h *harnessB) watchT7() {
+	w := h.w
+	since, cycle, g := h.nsSince, h.openCycle, h.cur
+	w.After(h.sc.T7+10*time.Millisecond, "t7-watch", func() {
+		if w.Viol != nil || h.last != hsms.NotSelectedState || h.nsSince != since || h.openCycle != cycle || h.closeCalled || h.cur != g || g == nil || !g.c.Alive() || g.peerEnded || g.separate {
+			return
+		}
+		w.Fail("T7_MISSED", "generation %d: State() has been NotSelected since %v and is still NotSelected at %v, T7 = %v: the T7 expiry never took the connection to NotConnected (%d establishing frames, %d Deselect.req on this connection)",
+			g.idx, since, w.Now(), h.sc.T7, g.estFrames, g.desFrames)
+	})
+}
+
 func (h *harnessB) endGen(g *gen) {
 	c := g.c
 	if !c.Alive() {
@@ -627,6 +665,10 @@ func (h *harnessB) appClose(first bool) {
 	}
 	h.closeStarted = true
 	w.Go("closer", func() {
+		if first && h.sc.WedgeData && r.Selected() && h.cur != nil && h.cur.c != nil && h.cur.c.Alive() {
+			h.cur.c.SendFrame(refhsms.DataHeader(0xFFFF, 6, 99, false, r.P.NextSys()), refhsms.ASCII("wedge"))
+			core.Sleep(3 * time.Millisecond)
+		}
 		for {
 			h.closeCalled = true
 			h.closeCallAt = w.Now()
@@ -732,6 +774,7 @@ func (h *harnessB) observe() {
 		lastGen.ncToNS++
 		h.cur = lastGen
 		h.nsSince = now
+		h.watchT7()
 	case from == ns && st == sl:
 		g := h.cur
 		if g == nil {
@@ -754,6 +797,7 @@ func (h *harnessB) observe() {
 		}
 		g.sToNS++
 		h.nsSince = now
+		h.watchT7()
 		if g.sToNS > g.desFrames {
 			w.Fail("CAUSE", "generation %d: State() left Selected for NotSelected %d times but the peer sent only %d Deselect.req", g.idx, g.sToNS, g.desFrames)
 
